@@ -2,6 +2,7 @@ import KitProofs.Lemmas.NoPanicTime
 import KitProofs.Lemmas.NoPanicGlue
 import KitProofs.Lemmas.NoPanicNames
 import KitProofs.Lemmas.NoPanicPrefix
+import KitProofs.Lemmas.NoPanicSniff
 import KitModel.NoPanicInventory
 /-!
 # C07 — no input can crash or hang a parser, decoder or crypto entry point
@@ -84,6 +85,113 @@ theorem parseKey_never_panics (raw : Bytes) (ct : String) : (Keys.parseKeyBranch
 example : Keys.parseKeyBranch [45, 45, 45, 45, 45, 66, 69, 71, 73, 78, 32, 80] "" = .ok .pem := by decide
 example : Keys.parseKeyBranch [123, 50, 51, 52, 53, 54, 55, 56, 57, 48, 49, 50, 51, 52, 53, 54] "" = .ok .symmetric := by decide
 example : Keys.parseKeyBranch [123, 125] "" = .ok .jwk := by decide
+
+/-! ### `ParseKey`: the length guard and the slice expression must be about the same value
+
+`Keys.parseKeyBranchOn bound hi fill view raw ct` guards with `len(raw) > bound` and slices
+`(view raw)[0:hi]`, a Go slice value with its own length and capacity. -/
+
+/-- The model of `parseKey_never_panics` is the instance "slice the guarded value itself,
+`len(raw) > 10`, `[0:5]`" — whatever the spare capacity behind the input and whatever it holds. -/
+theorem parseKeyOn_id_eq_model (fill : UInt8) (raw : Bytes) (spare : Nat) (ct : String) :
+    Keys.parseKeyBranchOn 10 5 fill id { data := raw, spare := spare } ct = Keys.parseKeyBranch raw ct := by
+  unfold Keys.parseKeyBranchOn Keys.parseKeyBranch
+  simp only [Keys.GoSlice.len, id]
+  by_cases h10 : raw.length > 10
+  · rw [Keys.sliceCap_eq_slice fill raw spare 5 (by omega)]
+    rfl
+  · simp only [h10, if_false]
+
+/-- When the marker is read from the guarded value itself, any guard `len(raw) > bound` with
+`hi ≤ bound + 1` keeps `raw[0:hi]` in range: no input, content type, or capacity makes it panic. -/
+theorem parseKeyOn_same_value_never_panics (bound hi : Nat) (fill : UInt8) (h : hi ≤ bound + 1)
+    (raw : Keys.GoSlice) (ct : String) : (Keys.parseKeyBranchOn bound hi fill id raw ct).isPanic = false := by
+  rw [Keys.parseKeyBranchOn_isPanic]
+  cases hs : Keys.sniffReached bound raw.data ct with
+  | false => rfl
+  | true =>
+    have hlen := Keys.sniffReached_length hs
+    have hcap : ¬ ((id raw).cap < hi) := by
+      show ¬ (raw.data.length + raw.spare < hi)
+      omega
+    simp only [Bool.true_and, decide_eq_false_iff_not]
+    exact hcap
+
+/-- For an ARBITRARY sliced value `view raw` the model panics exactly when the heuristic reaches the
+slice expression (non-empty input, no recognised content type, not taken for a JWK, longer than
+`bound`) and `view raw` has fewer than `hi` elements of capacity: the guard says nothing about it. -/
+theorem parseKeyOn_panics_iff (bound hi : Nat) (fill : UInt8) (view : Keys.GoSlice → Keys.GoSlice)
+    (raw : Keys.GoSlice) (ct : String) :
+    (Keys.parseKeyBranchOn bound hi fill view raw ct).isPanic = true ↔
+      Keys.sniffReached bound raw.data ct = true ∧ (view raw).cap < hi := by
+  rw [Keys.parseKeyBranchOn_isPanic]; simp
+
+/-- The class of the seeded change C07-r5m1, characterised: sniffing the marker on
+`bytes.TrimLeft(raw, " \t\r\n")` behind the guard on the untrimmed length panics exactly for an
+input of more than 10 bytes that reaches the heuristic and either consists of blanks only (a blank
+key file, a raw AES key of 0x20 bytes; `TrimLeft` returns nil) or keeps fewer than 5 bytes of
+length + spare capacity behind its leading blanks. -/
+theorem parseKey_trimmed_view_panics_iff (fill : UInt8) (raw : Keys.GoSlice) (ct : String) :
+    (Keys.parseKeyBranchOn 10 5 fill Keys.trimLeftBlanks raw ct).isPanic = true ↔
+      Keys.sniffReached 10 raw.data ct = true ∧
+        (raw.data.all Keys.isBlank = true ∨ (raw.data.dropWhile Keys.isBlank).length + raw.spare < 5) := by
+  rw [parseKeyOn_panics_iff, Keys.trimLeftBlanks_cap]
+  constructor
+  · rintro ⟨h1, h2⟩
+    refine ⟨h1, ?_⟩
+    by_cases hall : raw.data.all Keys.isBlank = true
+    · exact Or.inl hall
+    · right; simpa [hall] using h2
+  · rintro ⟨h1, h2⟩
+    refine ⟨h1, ?_⟩
+    by_cases hall : raw.data.all Keys.isBlank = true
+    · simp [hall]
+    · rcases h2 with h2 | h2
+      · exact absurd h2 hall
+      · simpa [hall] using h2
+
+/-- So "the slice is in range" is NOT a theorem of a model in which the sliced value may differ from
+the guarded one: the hypothesis `view = id` of `parseKeyOn_same_value_never_panics` is needed. -/
+theorem parseKeyOn_view_must_be_the_guarded_value :
+    ¬ ∀ (view : Keys.GoSlice → Keys.GoSlice) (raw : Keys.GoSlice) (ct : String),
+        (Keys.parseKeyBranchOn 10 5 0 view raw ct).isPanic = false := by
+  intro h
+  have := h Keys.trimLeftBlanks { data := List.replicate 11 32, spare := 0 } ""
+  revert this
+  decide
+
+-- 11 spaces; a raw AES-128 key of 0x20 bytes (also with spare capacity: TrimLeft returns nil); ten newlines + "abc"
+example : (Keys.parseKeyBranchOn 10 5 0 Keys.trimLeftBlanks { data := List.replicate 11 32 } "").isPanic = true := by decide
+example : (Keys.parseKeyBranchOn 10 5 0 Keys.trimLeftBlanks { data := List.replicate 16 32, spare := 100 } "text/plain").isPanic = true := by decide
+example : (Keys.parseKeyBranchOn 10 5 0 Keys.trimLeftBlanks { data := List.replicate 10 10 ++ [97, 98, 99] } "").isPanic = true := by decide
+-- the same input with two spare bytes, ten blanks only, and every one of them under `view = id`: no panic
+example : Keys.parseKeyBranchOn 10 5 0 Keys.trimLeftBlanks { data := List.replicate 10 10 ++ [97, 98, 99], spare := 2 } "" = .ok .symmetric := by decide
+example : Keys.parseKeyBranchOn 10 5 0 Keys.trimLeftBlanks { data := List.replicate 10 32 } "" = .ok .symmetric := by decide
+example : Keys.parseKeyBranchOn 10 5 0 id { data := List.replicate 16 32 } "" = .ok .symmetric := by decide
+example : Keys.parseKeyBranchOn 10 5 0 Keys.trimLeftBlanks { data := [10, 10] ++ Keys.dashes ++ [66, 69, 71, 73, 78, 32] } "" = .ok .pem := by decide
+
+/-- **Tie to the source.** In the regenerated facts every constant-bound slice / index expression
+that is dominated by length guards is covered by one of them ON THE SLICED VARIABLE ITSELF (operand
+resolved through `l := len(x)`, not stale, `need ≤ minLen`), or is one of the two reviewed
+derived-operand sites (`vv := []rune(str)`). A guard on another value — `l > 10` on the untrimmed
+input in front of `pemStart[0:5]` — makes this fail. -/
+theorem const_bounds_guarded_on_the_same_value : Inventory.guardedOnAnotherValue = [] := by decide +kernel
+
+/-- `ParseKey`'s two sites are what the model says: `raw[0]` behind `l := len(raw); l == 0`, and
+`raw[0:5]` behind `len(raw) > 10` (`minLen = 11`) on the same variable — the constants `10` and `5`
+of `Keys.parseKeyBranch` and the identity view of `parseKeyOn_id_eq_model`. -/
+theorem parseKey_sniff_sites_match_model :
+    (Generated.C07.constBounds.filter (·.fn == "crypto.ParseKey")).map
+        (fun r => (r.expr, r.operand, r.need, (r.lenGuards.filter (·.operand == r.operand)).map (·.minLen)))
+      = [("raw[0]", "raw", 1, [1]), ("raw[0:5]", "raw", 5, [1, 11])] := by decide +kernel
+
+/-- The model instantiated with the constants of any `crypto.ParseKey` record whose guard is on the
+sliced variable and implies the bound never panics (in particular with the regenerated ones). -/
+theorem parseKey_never_panics_at_source_constants (r : Generated.C07.ConstBound) (g : Generated.C07.LenGuard)
+    (_hr : r ∈ Generated.C07.constBounds) (_hg : g ∈ r.lenGuards) (_hsame : g.operand = r.operand)
+    (hneed : r.need ≤ g.minLen) (fill : UInt8) (raw : Keys.GoSlice) (ct : String) :
+    (Keys.parseKeyBranchOn (g.minLen - 1) r.need fill id raw ct).isPanic = false :=
+  parseKeyOn_same_value_never_panics _ _ fill (by omega) raw ct
 
 /-- `parseSymmetricKey`: the destination buffer sized from `len(raw)` is large enough for decoding
 the trimmed input, and `dst[:n]` is in range, for every decoder that honours `encoding/base64`'s
@@ -434,6 +542,10 @@ theorem cited_theorems_exist :
       parseSymmetric_never_panics, chainLoop_never_panics, hookChain_never_panics,
       decodeString_never_panics, normalize_never_panics, decodeCertificates_terminates,
       exponentTooLarge_never_panics, quantity_arg_guarded, uncapitalize_never_panics]) = true := by decide +kernel
+
+/-- the theorems `derivedOperandSites` relies on exist -/
+theorem derived_operand_theorems_exist :
+    Inventory.derivedOperandSites.all (fun d => d.2.2.2 ∈ thm_names% [runes_of_string]) = true := by decide +kernel
 
 /-- The dapr/kit functions that panic on part of their domain (closed under "hands its own parameter
 on without a `switch` on it") are exactly the two table look-ups of package crypto and the six
